@@ -275,6 +275,8 @@ def check(rep, F, tier, replay=None):
                 for c in F.calls(sub):
                     if c.to and PR.search(c.to):
                         cs.add(c.to)
+            if m == "deduplicated_clone" and not cs and any(F.key(c.to or "").endswith("%s::deduplicated_view" % T) for sub in [ids[0]] + [c2 for c2 in F.fns if c2.startswith(ids[0] + "::{closure")] for c in F.calls(sub)):
+                cs = set(prim.get("deduplicated_view", set()))  # the clone is built from the view: the same primitive by construction
             prim[m] = cs
         if len(prim) == 2:
             rep.inst("SIB-dedup")
